@@ -396,3 +396,6 @@ def run(chk, S: Session):
     # "the same numbers as the flattened problem": a state whose leaves have different dtypes is flattened to the common dtype; the unravel closures of the
     # three models must not cast a leaf back (rule of C20)
     borrow(chk, S, rb, "C20", lambda r, c: r == "R-C20-4" and "from_example" in c)
+    # "returns means and standard deviations": the reported standard deviation is a function of the covariance (row norms of the factor), not of the
+    # particular square root -- otherwise it is neither permutation-equivariant nor the same under jit (rule of C08)
+    borrow(chk, S, rb, "C08", lambda r, c: r == "R-C08-3" and ".std" in c)
